@@ -50,7 +50,9 @@ func (s *Batcher) BatchChan() <-chan extractor.InputBatch {
 
 // SetSourceCount sets the number of source files
 func (s *Batcher) setSourceCount(count int) {
+	s.mux.Lock()
 	s.sourceCount = count
+	s.mux.Unlock()
 }
 
 // StartFileReading registers a given source as being read in the global read-pool
@@ -117,8 +119,8 @@ func (s *Batcher) StatusString() string {
 
 	elapsedTime := time.Since(s.lastRateUpdate).Seconds()
 	if elapsedTime >= 0.5 {
-		s.lastRate = uint64(float64(s.readBytes-s.lastRateBytes) / elapsedTime)
-		s.lastRateBytes = s.readBytes
+		s.lastRate = uint64(float64(readBytes-s.lastRateBytes) / elapsedTime)
+		s.lastRateBytes = readBytes
 		s.lastRateUpdate = time.Now()
 	}
 
